@@ -936,6 +936,16 @@ def bi_dict_values_str(ex, e):
     return mk_bool(z3.ForAll([k], z3.Implies(z3.Select(d.dom, k), is_str(z3.Select(d.val, k)))))
 
 
+def bi_dict_wf(ex, e):
+    """dict_wf(d): the key order lists exactly the keys (true of every Python dict; the encoder keeps the
+    domain and the key order as separate terms, so proofs that need the connection state it)"""
+    d = _dict_arg(ex, e)
+    if d.keys is None:
+        return mk_bool(z3.BoolVal(True))
+    k = fresh('k', Val)
+    return mk_bool(z3.ForAll([k], z3.Select(d.dom, k) == z3.Contains(d.keys, z3.Unit(k))))
+
+
 def bi_forall_keys(ex, e):
     """forall_keys(d, lambda k: P): P holds of every key of the dict"""
     d = _dict_arg(ex, e)
